@@ -263,6 +263,7 @@ def async_side(ctx, db):
         if fname == 'cocls::async::start_promise':
             f, e = lst[0]
             o = f.ev(e.get('rhs_ev')) if e.get('rhs_ev') is not None else None
+            o = (value_origin(f, o) if o is not None else value_origin(f, e.get('rhs'))) or o
             ctx.ob(rid2, f, e['loc'], o is not None and o.k == 'call' and norm(o.get('callee')) == CLAIM, 'start_promise binds the future obtained from promise::claim()', desc='start_promise binds something else than claim()')
 
 
